@@ -178,6 +178,21 @@ def fam_signals(rng, n, nsamp, npk=6):
         out.append(Scn(f'sig{sig}-{i}-{cfg[0]}ch-{cfg[1]}', ls, 'signal-x-config', budget=120, cost=20 + N * cfg[0] // 150))
     return out
 
+# submaps and sparse books: the 5.1 set-ups are the only bundled ones with two submaps (the LFE has its own), the low-rate low-quality ones the only
+# ones whose residue books have unused entries that tonal material reaches; channels silent on their own decide what is coded per submap
+TONAL_CONFIGS = [(2, 22050, 'q', 0), (2, 16000, 'q', -100), (2, 11025, 'q', -100), (1, 11025, 'q', -100), (1, 16000, 'q', 0), (2, 8000, 'q', -100), (2, 22050, 'q', -100), (1, 8000, 'q', 100)]
+SURROUND_CONFIGS = [(6, 44100, 'q', 100), (6, 48000, 'q', 600), (6, 48000, 'q', -100), (6, 44100, 'q', 400), (6, 32000, 'q', 300), (5, 44100, 'q', 300), (6, 48000, 'q', 900)]
+def fam_structure(rng, n, nsamp, npk=6):
+    out = []
+    combos = [(c, 10) for c in TONAL_CONFIGS] + [(c, sg) for c in SURROUND_CONFIGS for sg in (11, 12, 13, 10)]
+    rng.shuffle(combos)
+    # every quick run sees at least one of each kind
+    combos.sort(key=lambda cs: 0 if cs in (((2, 22050, 'q', 0), 10), ((6, 44100, 'q', 100), 11), ((6, 48000, 'q', 600), 13)) else 1)
+    for i, (cfg, sg) in enumerate(combos[:n]):
+        ls = setup_lines(cfg, i % 2 == 0) + ['eainit 0', f'ehdr 0 dump {npk}', f'ewrite 0 {nsamp} {sg} 4096', 'eeof 0', 'dec 0 p 0 1', 'eclear 0 bdci']
+        out.append(Scn(f'struct-{i}-sig{sg}-{cfg[0]}ch-{cfg[1]}-q{cfg[3]}', ls, 'tonal-and-silent-channels', budget=120, cost=20 + nsamp * cfg[0] // 150))
+    return out
+
 STARVED_CTL = [(1, 0, 0, 40, 1500, 2000, 500), (1, 0, 0, 40, 1500, 1000, 1000), (1, 0, 0, 32, 1500, 4000, 0), (1, 0, 0, 24, 500, 500, 900), (1, 0, 0, 48, 100, 8, 500), (1, 0, 0, 16, 1500, 0, 0)]
 def fam_starved(rng, n, nsamp, npk=6):
     """average-only management (NO hard limit) starved far below what the signal needs, with small reservoirs at every bias: the floater bottoms out at the
@@ -225,7 +240,7 @@ def check_c05(pid, tier, seed, replay=None):
         if kind == 'design':
             os.makedirs(vlib.REPLAY, exist_ok=True); p = os.path.join(vlib.REPLAY, f'{pid}-design-{name}.txt'); open(p, 'w').write(txt)
             extra_viol.append(dict(replay=p, what=f'design-level invariant violated in {name}'))
-    scns = fam_signals(rng, 40 if q else 1500, 12000 if q else 40000, 6 if q else 12) + fam_starved(rng, 8 if q else 120, 16000 if q else 60000, 6 if q else 12)
+    scns = fam_signals(rng, 40 if q else 1500, 12000 if q else 40000, 6 if q else 12) + fam_starved(rng, 8 if q else 120, 16000 if q else 60000, 6 if q else 12) + fam_structure(rng, 6 if q else 36, 16000 if q else 60000, 6 if q else 12)
     # design level of the strict readers, alongside the encodes: reader o writer = identity on every generated set-up and packet (Setup_MC), fast = declarative codewords (Codebook_MC)
     def readers_mc():
         out = {}
